@@ -67,7 +67,7 @@ class Harness(cm.BaseB):
             for i in range(0, len(vs), 2000):
                 out.append({"kind": "pv", "m": m, "vs": [fhex(v) for v in vs[i : i + 2000]]})
         for dev in ("EvoWorklist", "FluentWorklist"):
-            for m in [50, 4.8, 33.3, 950, 0.5, 7]:
+            for m in [50, 4.8, 33.3, 950, 0.5, 7, 0.375, 166.667, 33.335, 2000 / 3]:
                 out.append({"kind": "tr", "dev": dev, "m": m})
         out.append({"kind": "rd"})
         out.append({"kind": "trseq"})
@@ -115,7 +115,17 @@ class Harness(cm.BaseB):
             res = partition_volume(v, max_volume=m)
         except Exception as e:
             return "pv:raised", None, [("C06/helper-raised", f"partition_volume({v}, max_volume={m}) raised {type(e).__name__}: {e}")]
-        res = [float(x) for x in res]
+        # a caller may do what it likes with the list it was handed: the next identical request is unaffected
+        first = [float(x) for x in res]
+        try:
+            res.append(-1.0)
+            res[0] = 12345.0
+            del res[:]
+        except Exception:
+            pass
+        res = [float(x) for x in partition_volume(v, max_volume=m)]
+        if res != first:
+            return "pv:aliased", None, [("C06/sum", f"partition_volume({v!r}, max_volume={m}) returned {first[:5]} and, after the caller edited that list, {res[:5]}")]
         allowed = allowed_counts(v, m)
         if len(res) not in allowed:
             V.append(("C06/step-count", f"partition_volume({v!r}, max_volume={m}) -> {len(res)} steps {res[:6]}, expected {sorted(allowed)}"))
